@@ -24,6 +24,7 @@
     The freeze sweeps of the correspondence runner search the implementation for a thread that
     cannot finish alone (every other thread suspended at every point of scenario programs). *)
 From ASModel Require Import Base State Orderings_gen Step Run Progress Hist Inv InvTl InvProto InvStep ProgressW.
+From ASModel Require Import Stale2 Stale2P.
 
 Theorem C09_no_waiting :
   forall cf s t t' x, t' <> t -> thr (fst (step cf s t' x)) t = thr s t.
@@ -73,3 +74,47 @@ Print Assumptions C09_writer_solo_bound.
 Print Assumptions C09_solo_completes.
 Print Assumptions C09_swap_bound_formula.
 Print Assumptions C09_help_retries_only_on_change.
+
+(** ** With the four weakened loads of [Stale2.step_stale2]: a thread running alone still finishes
+    within the same bounds, where the budget [k] now counts, besides spurious failures of weak
+    compare-exchanges, the stale head reads that return a non-current head ([spurs2]): such a read
+    costs exactly one more step (the push CAS fails once and returns the current head) -
+    [C09_stale_head_costs_one_step] is a checked state in which the bound without that charge fails. *)
+Theorem C09_solo_bound_stale2 :
+  forall cf t xs s k, WF2 s -> solo_ok2 cf t xs s -> (spurs2 cf t xs s <= k)%nat ->
+    (solo_steps2 cf t xs s <= mu_of s t k)%nat.
+Proof. exact solo_bound_stale2. Qed.
+
+Theorem C09_solo_bound_closed_stale2 :
+  forall cf t xs s k, WF2 s -> t_status (thr s t) = Running -> solo_ok2 cf t xs s ->
+    (spurs2 cf t xs s <= k)%nat ->
+    (solo_steps2 cf t xs s <= B_any (headn (sh s)) k (length (t_stack (thr s t))))%nat.
+Proof. exact solo_bound_closed_stale2. Qed.
+
+Theorem C09_writer_solo_bound_stale2 :
+  forall cf t s x0 xs k c,
+    WF2 s -> t_status (thr s t) = Running -> t_stack (thr s t) = [] ->
+    nth_error (t_prog (thr s t)) (N.to_nat (t_cmdi (thr s t))) = Some c ->
+    cmd_enabled s c = true -> is_writer c = true ->
+    solo_ok2 cf t xs (fst (step_stale2 cf s t x0)) ->
+    (spurs2 cf t xs (fst (step_stale2 cf s t x0)) <= k)%nat ->
+    (solo_steps2 cf t xs (fst (step_stale2 cf s t x0)) <= B_cmd c (headn (sh s)) k)%nat.
+Proof. exact writer_solo_bound_stale2. Qed.
+
+Theorem C09_stale_head_costs_one_step :
+  Stale2Sched p5_cf (init_state p5_inits p5_progs) p5_sched /\
+  WF2 p5_s /\
+  hd_error (t_stack (thr p5_s 1)) = Some GPush0 /\ mem (sh p5_s) LHead = 1 /\
+  stale2_ok p5_s 1 2 /\ solo_ok2 p5_cf 1 p5_stale p5_s /\
+  Forall (fun x => x <> 1) p5_stale /\
+  mu_of p5_s 1 0 = 2%nat /\
+  solo_steps p5_cf 1 p5_fresh p5_s = 2%nat /\
+  solo_steps2 p5_cf 1 p5_stale p5_s = 3%nat /\
+  spurs2 p5_cf 1 p5_stale p5_s = 1%nat /\
+  mu_of p5_s 1 1 = 3%nat.
+Proof. exact stale_head_costs_one_step. Qed.
+
+Print Assumptions C09_solo_bound_stale2.
+Print Assumptions C09_solo_bound_closed_stale2.
+Print Assumptions C09_writer_solo_bound_stale2.
+Print Assumptions C09_stale_head_costs_one_step.
